@@ -644,10 +644,14 @@ RESP_LISTS = [
 ]
 
 
+# every capital letter in a response field name, first / middle / last octet
+RESP_LETTERS = [([[":status", "200"], [n, "1"]], False) for c in range(65, 91) for n in ('x-%sone' % chr(c), '%sx' % chr(c), 'x%s' % chr(c))]
+
+
 def gen_c20_extra(ctx, thorough):
     out = []
     rng = ctx.rng
-    for fields, ok in RESP_LISTS:
+    for fields, ok in RESP_LISTS + (RESP_LETTERS if thorough else RESP_LETTERS[::3] + RESP_LETTERS[1::9] + RESP_LETTERS[2::9]):
         for position in ('first', 'after'):
             for body in (0, 5):
                 steps = [call(1), call(2), call(3)]
